@@ -24,6 +24,8 @@ POOL = c09.POOL + [
     "{a => $, b => {c => $.len()}}.b.c", "$.toSet().toList().orderBy($)", "$.selectMany([$, $ * 10]).distinct()", "switch($.len() > 2 => 'big', true => 'small')",
     "$.any($ > 2) and not $.all($ > 2)", "$.takeWhile($ < 3).concat($.skipWhile($ < 3))", "coalesce(null, $.first()) ?? 0" if False else "coalesce(null, $.first())",
     "let(f => 2) -> $.select($ * $f).sum()", "$.where($ mod 2 = 0).select({v => $}).select($.v)",
+    # numbers beyond the interpreter's str <-> int conversion limit (a process-wide setting no evaluation may disturb)
+    "str(pow(10, 5000)).len()", "int('7' * 6000) mod 1000",
     # helpers the host defined once in the shared context (yaql-level functions: def())
     "addTen($.sum())", "$.select(sq($)).sum() + addTen($.len())", "$.select(addTen($)).where($ > 11).len()",
     # values of the shared context used where they must be hashed
@@ -192,6 +194,7 @@ def write_point_preemption(rep, rng, quick, baseline):
     return runs
 
 
+INT_LIMIT = sys.get_int_max_str_digits() if hasattr(sys, 'get_int_max_str_digits') else 0
 HELPERS = "def(addTen, $ + 10) -> def(sq, $ * $)"
 
 
@@ -444,6 +447,30 @@ def run(rep, tier, seed, keep=False):
             if c09.snap_chain(shared) != chain0:
                 rep.violation('C18/free-running/shared-context-changed', 'shared context changed by free-running evaluations', {})
                 chain0 = c09.snap_chain(shared)
+        # the two conversions beyond the interpreter's limit against each other, free-running: what one evaluation does to
+        # process-wide settings must not change what the other returns
+        ibig = [POOL.index("str(pow(10, 5000)).len()"), POOL.index("int('7' * 6000) mod 1000")]
+        results = []
+
+        def body2(k):
+            for it in range(60 if quick else 400):
+                i = ibig[(it + k) % 2]
+                ctx = shared.create_child_context()
+                results.append((i, DATAS[0], outcome(lambda: stmts[i].evaluate(data=DATAS[0], context=ctx))))
+        ths = [threading.Thread(target=body2, args=(k,)) for k in range(4)]
+        for t in ths:
+            t.start()
+        for t in ths:
+            t.join()
+        for i, d, g in results:
+            total += 1
+            if not same(g, baseline(i, d)):
+                rep.violation('C18/free-running/result-differs', 'free-running threads: %r gave %r, alone %r' % (POOL[i], g, baseline(i, d)), {'statement': POOL[i], 'data': d})
+                break
+        if hasattr(sys, 'get_int_max_str_digits') and sys.get_int_max_str_digits() != INT_LIMIT:
+            rep.violation('C18/free-running/process-setting-changed', 'after the evaluations the interpreter\'s int conversion limit is %r, it was %r' % (
+                sys.get_int_max_str_digits(), INT_LIMIT), {})
+            sys.set_int_max_str_digits(INT_LIMIT)
         sys.setswitchinterval(old_switch)
         rec.uninstall()
         rep.evaluations += total
